@@ -102,9 +102,30 @@ def run(ctx):
     batch = 600 if ctx.tier == "quick" else 5000
     cases = gen_cases(ctx, env, n)
     defs = [["define", name, name, ["dimname", d]] for name, d in FRESH]
-    specs = []
-    for i in range(0, len(cases), batch):
-        specs.append({"modules": "all", "ops": defs + [c[0] for c in cases[i:i + batch]]})
+    # refused declarations (zero-sized or self equivalences raise and must equate nothing) are part of the
+    # history: afterwards the same impossible conversions must still fail with ConversionNotFound only
+    by_dim = {}
+    for name, d in FRESH:
+        by_dim.setdefault(d, []).append(name)
+    refused = []
+    for d, names in by_dim.items():
+        if len(names) >= 2:
+            refused.append(["declare", ["u", names[0]], ["i", 0], ["u", names[1]]])
+            refused.append(["declare", ["u", names[1]], ["f", (0.0).hex()], ["u", names[0]]])
+        refused.append(["declare", ["u", names[0]], ["i", 2], ["u", names[0]]])
+    refused.append(["declare", ["u", "zqc07d"], ["i", 0], ["u", "joule"]])
+    refused.append(["declare", ["u", "zqc07e"], ["i", 0], ["mul", ["u", "kilogram"], ["div", ["u", "meter"], ["pow", ["u", "second"], 2]]]])
+    specs, layouts = [], []
+    for bi, i in enumerate(range(0, len(cases), batch)):
+        chunk_ops = [c[0] for c in cases[i:i + batch]]
+        if bi % 2 == 0:
+            prelude = defs + refused            # refused declarations first
+        else:
+            prelude = defs                      # ... or in the middle of the batch
+            mid = len(chunk_ops) // 2
+            chunk_ops = chunk_ops[:mid] + refused + chunk_ops[mid:]
+        specs.append({"modules": "all", "ops": prelude + chunk_ops})
+        layouts.append((len(prelude), bi % 2 == 1, len(refused)))
     logs_default = synth.run_specs(specs, flags=(), timeout=1800)
     logs_opt = synth.run_specs(specs, flags=("-O",), timeout=1800)
     ctx.count("child_processes", 2 * len(specs))
@@ -116,7 +137,12 @@ def run(ctx):
                 ctx.not_reached(f"{mode} child: {log.get('inconclusive') or log.get('fatal')}")
         if any("inconclusive" in log or log.get("fatal") for log in (ld, lo)):
             continue
-        rd, ro = ld["results"][len(defs):], lo["results"][len(defs):]
+        npre, in_middle, nref = layouts[bi]
+        rd, ro = ld["results"][npre:], lo["results"][npre:]
+        if in_middle:
+            mid = len(chunk) // 2
+            rd, ro = rd[:mid] + rd[mid + nref:], ro[:mid] + ro[mid + nref:]
+        ctx.count("refused_declarations_in_history", nref)
         for (op, kind, cls, shape, nontrivial), a, b in zip(chunk, rd, ro):
             ctx.count("evaluations")
             oa, ob = outcome(a), outcome(b)
